@@ -4,7 +4,7 @@
 From Coq Require Import List ZArith Bool Reals Lra Lia String Ascii.
 From T4V Require Import Base.Str Base.Scalar C06.Model
      C06.ProofsIndex C06.ProofsNumeric C06.ProofsDevelop C06.ProofsTop C06.ProofsText
-     C06.ProofsEndToEnd C06.LinkC05 C06.ProofsTokens.
+     C06.ProofsEndToEnd C06.LinkC05 C06.ProofsTokens C06.ProofsFloat.
 Import ListNotations.
 
 (* ---- index order ----------------------------------------------------------
@@ -632,6 +632,24 @@ Theorem C06_fill_array_read_as_mcnp :
    <-> ((forall e, In e es -> snd e = []) \/ List.length es = 1%nat)).
 Proof. exact fill_array_read_as_mcnp. Qed.
 
+(* round 5: the hypothesis on the transformation tokens reduced to param_token (starts
+   like a number and to_float reads it): every such spelling ends in a digit or a point
+   and contains no colon (C06_float_spelling_facts) *)
+Theorem C06_float_spelling_facts : forall t : string, is_float_spelling t = true ->
+  has_colon t = false /\ ends_plain t.
+Proof. exact float_spelling_facts. Qed.
+
+Theorem C06_fill_array_read_as_mcnp_param :
+  forall (first : string) (more : list string) (bs : bounds) (es : list (string * list string))
+         (us : list Z) (tail : list string),
+  Forall2 spells_range (first :: more) bs -> wf_bounds bs ->
+  Forall2 spells_int (map fst es) us -> Z.of_nat (List.length us) = size bs ->
+  Forall (fun e => Forall param_token (snd e)) es -> keyword_or_end tail ->
+  ((exists k, parse_fill_kw first (more ++ flatten_entries es ++ tail)%list = Ok k /\
+              mcnp_equivalent k us es)
+   <-> ((forall e, In e es -> snd e = []) \/ List.length es = 1%nat)).
+Proof. exact fill_array_read_as_mcnp_param. Qed.
+
 (* whatever the grouping by parentheses, what the code keeps is: the first
    size(ranges) tokens as universes and ALL the other numeric tokens as one
    transformation *)
@@ -753,8 +771,8 @@ Print Assumptions C06_family_develop.
 
 (* --lattice options, FILL arrays on the cell card, tokenisation, the characterisation of finding array_entry_transformation *)
 Theorem C06_family_text :
-  ltac:(let t := type of (conj C06_parse_ranges_spelled (conj C06_parse_lattice_option (conj C06_parse_fill_kw_array (conj C06_parse_fill_kw_short_and_shapes (conj C06_array_entry_transformation_refuted (conj C06_fill_array_read_as_mcnp (conj C06_parse_fill_kw_flat C06_tokenize_fill_array))))))) in exact t).
-Proof. exact (conj C06_parse_ranges_spelled (conj C06_parse_lattice_option (conj C06_parse_fill_kw_array (conj C06_parse_fill_kw_short_and_shapes (conj C06_array_entry_transformation_refuted (conj C06_fill_array_read_as_mcnp (conj C06_parse_fill_kw_flat C06_tokenize_fill_array))))))). Qed.
+  ltac:(let t := type of (conj C06_parse_ranges_spelled (conj C06_parse_lattice_option (conj C06_parse_fill_kw_array (conj C06_parse_fill_kw_short_and_shapes (conj C06_array_entry_transformation_refuted (conj C06_fill_array_read_as_mcnp (conj C06_parse_fill_kw_flat (conj C06_tokenize_fill_array (conj C06_float_spelling_facts C06_fill_array_read_as_mcnp_param))))))))) in exact t).
+Proof. exact (conj C06_parse_ranges_spelled (conj C06_parse_lattice_option (conj C06_parse_fill_kw_array (conj C06_parse_fill_kw_short_and_shapes (conj C06_array_entry_transformation_refuted (conj C06_fill_array_read_as_mcnp (conj C06_parse_fill_kw_flat (conj C06_tokenize_fill_array (conj C06_float_spelling_facts C06_fill_array_read_as_mcnp_param))))))))). Qed.
 Print Assumptions C06_family_text.
 
 (* linked with C05: both directions, satisfiability of the inverse law *)
